@@ -210,6 +210,8 @@ def _simple_helper(fn, allow_nested=True):
         return t.split('.')[-1] in ('lru_cache', 'cache')
     if fn.decorator_list and not all((isinstance(d, ast.Name) and d.id == 'staticmethod') or _memo(d) for d in fn.decorator_list):
         return None
+    if any(_memo(d) for d in fn.decorator_list) and not _memo_result_immutable(fn):
+        return None         # the cached object is shared between calls: substituting the body would hide that (the function stays visible to the MEMO-MUTABLE rule)
     extra = (a.vararg.arg if a.vararg else None, a.kwarg.arg if a.kwarg else None, [x.arg for x in a.kwonlyargs], list(a.kw_defaults))
     return [x.arg for x in a.args], body[:-1], body[-1].value, a.defaults, extra
 
@@ -2246,6 +2248,41 @@ def _module_lambdas_to_defs(tree):
                 tree.body[i] = fn
                 changed = True
     return changed
+
+
+def _memo_result_immutable(fn):
+    """every value returned by fn is a number / string / tuple of such (sharing one cached object between callers is then unobservable)"""
+    params = {a.arg for a in fn.args.posonlyargs + fn.args.args + fn.args.kwonlyargs}
+
+    def imm(e, depth=0):
+        if e is None or isinstance(e, (ast.Constant, ast.JoinedStr, ast.Compare)):
+            return True
+        if isinstance(e, ast.BoolOp):
+            return all(imm(v, depth + 1) for v in e.values)
+        if isinstance(e, ast.Tuple):
+            return all(imm(x, depth + 1) for x in e.elts)
+        if isinstance(e, ast.UnaryOp):
+            return imm(e.operand, depth + 1)
+        if isinstance(e, ast.BinOp):
+            return imm(e.left, depth + 1) and imm(e.right, depth + 1)
+        if isinstance(e, ast.IfExp):
+            return imm(e.body, depth + 1) and imm(e.orelse, depth + 1)
+        if isinstance(e, ast.Call):
+            t = ast.unparse(e.func)
+            return t in ('tuple', 'str', 'int', 'float', 'bool', 'frozenset', 'len', 'min', 'max', 'sum', 'abs', 'round', 'repr', 'format') or t.split('.')[0] == 'math'
+        if isinstance(e, ast.Name):
+            if e.id in params:
+                return True
+            binds = [n for n in ast.walk(fn) if isinstance(n, ast.Assign) and any(isinstance(t, ast.Name) and t.id == e.id for t in n.targets)]
+            others = [n for n in ast.walk(fn) if isinstance(n, ast.Name) and n.id == e.id and isinstance(n.ctx, ast.Store)]
+            return bool(binds) and len(binds) == len(others) and depth < 4 and all(imm(b.value, depth + 1) for b in binds)
+        if isinstance(e, ast.Attribute):
+            return e.attr in ('ndim', 'size', 'shape', 'dtype', 'itemsize')
+        if isinstance(e, ast.Subscript):
+            return isinstance(e.value, (ast.Attribute, ast.Name, ast.Tuple)) and imm(e.value, depth + 1)
+        return False
+    rets = [x for x in _walk_fn_own(fn) if isinstance(x, ast.Return)]
+    return bool(rets) and all(imm(r.value) for r in rets)
 
 
 def _split_chained_assignments(tree):
